@@ -167,19 +167,18 @@ class PtrTimeline:
 
     @staticmethod
     def build(rxlog, type_):
-        from sim.models import DupGuard, ModelCache
+        from sim.models import GuardSet, ModelCache
 
         tl = PtrTimeline()
         tl.iv = {}  # alias.lower() -> [[start_s, end_s], ...]
         cache = ModelCache(None)
-        guards = {}
+        guards = GuardSet()
         ty = type_.lower()
         for (t, label, data) in rxlog:
-            g = guards.setdefault(label, DupGuard())
-            if len(data) > wire.MAX_ABS or g.suppressed(data, t * 1000.0):
+            if len(data) > wire.MAX_ABS or not guards.check(label, data, t * 1000.0):
                 continue
             msg = wire.try_decode(data)
-            g.accept(data, t * 1000.0, bool(msg and any(q.qu for q in msg.questions)))
+            guards.accept(label, data, t * 1000.0, bool(msg and any(q.qu for q in msg.questions)))
             if msg is None or not msg.is_response:
                 continue
             eff = cache.apply_response(t * 1000.0, msg.records())
